@@ -11,7 +11,7 @@ REQUIRED = ["CifModel.C04_inv_init", "CifModel.C04_inv_sql", "CifModel.C04_inv_s
             "CifModel.C04_cex_F30_pinned", "CifModel.C04_cex_F34_pinned",
             "CifModel.C04_wok_init", "CifModel.C04_wok_step", "CifModel.C04_wok_hist", "CifModel.C04_packets_total", "CifModel.C04_rows_below", "CifModel.C04_iterator_tied", "CifModel.C04_quiet", "CifModel.C04_add_packet_in_contract", "CifModel.C04_set_category_in_contract", "CifModel.C04_get_value_in_wok", "CifModel.C04_remove_item_in_wok", "CifModel.C04_refines", "CifModel.C04_refines_hist", "CifModel.C04_refines_from_start", "CifModel.C04_set_value_in_contract",
             "CifModel.C04_set_value_existing", "CifModel.C04_set_value_cells", "CifModel.C04_set_value_creates_scalar_loop", "CifModel.C04_set_value_joins_scalar_loop",
-            "CifModel.C04_set_value_invalid_name", "CifModel.C04_hist_names_returned_as_created",
+            "CifModel.C04_set_value_invalid_name", "CifModel.C04_abs_loop_keys", "CifModel.C04_abs_fresh_loop_num", "CifModel.C04_hist_names_returned_as_created",
             "CifModel.Store.specStep_refines", "CifModel.Store.setValue_spec", "CifModel.Store.absS_tree", "CifModel.Store.Op.covered_all", "CifModel.C04_second_get_packets_refused", "CifModel.remove_last_item_sql",
             "CifModel.C04_code_set_category", "CifModel.C04_code_add_packet", "CifModel.C04_code_remove_item",
             "CifModel.C04_abs_fuel_suffices", "CifModel.C04_refines_create_frame", "CifModel.C04_create_frame_elsewhere", "CifModel.C04_refines_destroy_container",
@@ -49,8 +49,9 @@ PARTIAL = [
     "create the scalar loop, add the item as cif_loop_add_item does, add a packet as cif_loop_add_packet does when the loop has none); its "
     "closed forms are PROVED on the documented model: C04_set_value_existing (+ C04_set_value_cells), C04_set_value_creates_scalar_loop "
     "(exactly one new loop with exactly one packet), C04_set_value_joins_scalar_loop (exactly one new packet when the scalar loop had none), "
-    "C04_set_value_invalid_name; the last two closed forms assume what Inv gives for abstractions of reachable stores (loop keys unique, the "
-    "fresh loop number unused) as explicit hypotheses on the AState — they are not re-derived from `absS` of a Good store",
+    "C04_set_value_invalid_name; the last two closed forms take two facts about the documented state as hypotheses (a loop is determined by "
+    "(container, number); the loop number handed out next is unused) — C04_abs_loop_keys / C04_abs_fresh_loop_num prove both for absS of every "
+    "store satisfying Inv",
     "the theorems named C04_refines_<op> / C04_code_<op> are statements about single SQL statements or the transaction BODIES of the functions "
     "(addPacketBody, createLoopBody, Db.setAllValues, …), NOT about the API functions: they are the lemmas C04_refines is composed from and are "
     "superseded by it; remove_last_item_removes_loop is about cif_container_remove_item itself (the SQL-level fact is remove_last_item_sql); "
